@@ -260,6 +260,35 @@ def step (s : St) (line : String) : St × String :=
       | some v => ({ s with cache := updateLeader s.cache v store }, "ok")
       | none => (s, "none")
     | _, _ => (s, "bad-op")
+  | ["expire", id] =>
+    -- the TTL of the cached region runs out: to the lookups this is what an invalidated entry looks like
+    match id.toNat? with
+    | some id =>
+      match latestGet s.cache.latest id with
+      | some v => ({ s with cache := s.cache.invalidate v }, "ok")
+      | none => (s, "none")
+    | none => (s, "bad-op")
+  | ["sendfail", id, sched] =>
+    match id.toNat? with
+    | some id =>
+      match latestGet s.cache.latest id with
+      | some v => ({ s with cache := onSendFail s.cache v (sched == "1") }, "ok")
+      | none => (s, "none")
+    | none => (s, "bad-op")
+  | ["conv", k, fb] =>
+    -- request attempts for the key against the LIVE PD until accepted (at most 3), then one more lookup that must be
+    -- served from the cache (checked here by answering it from an empty PD)
+    match parseHex k, (match fb with | "inval" => some Feedback.invalidate | "reload" => some Feedback.needReload
+                                      | "epochnm" => some Feedback.epochNotMatch | _ => none) with
+    | some k, some fb =>
+      match attempts 3 s.cache s.live k fb 0 with
+      | (c, some failed) =>
+        let settled := match locateKey c [] k, s.live.getRegion k with
+          | (_, .ok r), some p => p.r == r
+          | _, _ => false
+        ({ s with cache := c }, verdict [(settled, "not-settled"), (decide (failed ≤ 1), "too-many-attempts"), (noRegress s.cache c, "regress")] ++ s!" {failed}")
+      | (c, none) => ({ s with cache := c }, "FAIL not-converged")
+    | _, _ => (s, "bad-op")
   | ["epochnm", id] =>
     match id.toNat? with
     | some id =>
